@@ -27,6 +27,7 @@ P("C12",
              "contract (time monotone, no pending event skipped, each event dispatched once, handlers not re-entered) is the legality "
              "condition of histories, checked on every real run by the replay and proved for the engine model under C01. "
              "c12_model_agreement_implies_property proves check_case -> holds_on for cases inside the representable range (wf_case). Checkpoint restore of the guard is out of scope (C06).",
+  quick_shards=8,
   assumptions=["engine contract (C01): time never decreases, no pending event is skipped, each scheduled event is dispatched once, handlers are not re-entered",
                "theorems quantify over histories in which every engine time t has least_multiple_gt(period, t) < 2^64 (beyond that the code wraps: modelled, tied, witnessed, excluded from the clauses)"],
   trusted=["modelled, not verified: modeling/ticker.go (TickScheduler.TickNow/TickLater, TickingComponent.NotifyRecv/NotifyPortFree/Handle); timing/freq.go via C42's model",
